@@ -172,6 +172,31 @@ NormDef(v, d) ==
          IF v.id \in VarIds(d) /\ VarOf(d, v.id).has THEN VEnum(v.id, Norm(v.v, VarOf(d, v.id).ty)) ELSE v
     [] d.d = "newtype" -> Norm(v, d.ty)
 
+(* NormMax: the other end of the range of acceptable re-encodings. The statement asks for an EQUIVALENT value;
+   an encoder that writes an unset optional field as an explicit None (instead of leaving it out, as
+   serialize_if_some does) still produces an equivalent instance. Every value "between" Norm and NormMax
+   (each declared optional field that is not Some either absent or None, at every nesting level) is
+   equivalent to the input; only Norm itself is the reference's own output (anything else: DRIFT). *)
+RECURSIVE NormMax(_, _), NormMaxDef(_, _)
+NormMax(v, t) ==
+  CASE t.t = "option" -> IF v.k = "Some" THEN VSome(NormMax(v.v, t.a)) ELSE v
+    [] t.t = "box" -> NormMax(v, t.a)
+    [] t.t = "vec" -> IF IsU8(t.a) THEN v ELSE VVec([i \in 1..Len(v.e) |-> NormMax(v.e[i], t.a)])
+    [] t.t = "array" -> VVec([i \in 1..Len(v.e) |-> NormMax(v.e[i], t.a)])
+    [] t.t = "map" -> VMap(v.kk, [key \in DOMAIN v.m |-> NormMax(v.m[key], t.a)])
+    [] t.t = "result" -> VEnum(v.id, NormMax(v.v, IF v.id = 0 THEN t.a ELSE t.b))
+    [] t.t = "ref" -> NormMaxDef(v, Lib[t.name])
+    [] OTHER -> v
+NormMaxDef(v, d) ==
+  CASE d.d = "struct" ->
+         LET known == FieldIds(d)
+             keep == known \cup {id \in DOMAIN v.f \ known : d.fb}
+         IN VStruct([id \in keep |-> IF id \notin known THEN v.f[id]
+                                     ELSE IF id \in DOMAIN v.f THEN NormMax(v.f[id], FW(FieldOf(d, id))) ELSE VNone])
+    [] d.d = "enum" ->
+         IF v.id \in VarIds(d) /\ VarOf(d, v.id).has THEN VEnum(v.id, NormMax(v.v, VarOf(d, v.id).ty)) ELSE v
+    [] d.d = "newtype" -> NormMax(v, d.ty)
+
 (* Equiv: a and b (both instances of t) denote the same typed data -- what "re-encodes it to an
    equivalent value" means: an optional field that is absent equals one that is None; unknown fields
    matter only where a fallback keeps them. *)
@@ -292,6 +317,8 @@ ThmConforming(v, d) ==
   /\ EquivDef(v, r.out, d)                                        \* ... equivalent to the input
   /\ r.out = NormDef(v, d)                                        \* ... and exactly the declarative normal form
   /\ TransDef(r.out, d) = r                                       \* re-encoding is idempotent
+  /\ LET mx == NormMaxDef(v, d) IN                                \* the most verbose equivalent re-encoding
+     ConformsDef(mx, d) /\ EquivDef(v, mx, d) /\ TransDef(mx, d) = r
   /\ (d.d = "struct" /\ d.fb) => \A id \in UnknownIds(v, d) : id \in DOMAIN r.out.f /\ r.out.f[id] = v.f[id]
   /\ (d.d = "struct" /\ ~d.fb) => DOMAIN r.out.f \subseteq FieldIds(d)
   /\ (d.d = "enum" /\ v.id \notin VarIds(d)) => r.out = v         \* (only possible with a fallback)
